@@ -133,7 +133,7 @@ func (p *Prog) fieldTypeSwitchFn() *ssa.Function {
 		ForEachInstr(fn, func(in ssa.Instruction) {
 			if b, ok := in.(*ssa.BinOp); ok && b.Op == token.EQL {
 				l, r := p.Origin(b.X), p.Origin(b.Y)
-				if _, isS := r.ConstStringVal(); isS && l.Kind == "field" && l.Field.Name() == "Type" {
+				if _, isS := r.ConstStringVal(); isS && l.Kind == "field" && cn(l.Field) == "Type" {
 					n++
 				}
 			}
@@ -205,7 +205,7 @@ func (p *Prog) logoutInitiators() []*ssa.Function {
 	core := p.roleFns("initiate-logout", "initiateLogoutInReplyTo", func(fn *ssa.Function) bool {
 		for _, cl := range Calls(fn) {
 			if callName(cl.Common()) == "time.AfterFunc" {
-				if o := p.Origin(cl.Common().Args[0]); o.Kind == "field" && o.Field.Name() == "LogoutTimeout" {
+				if o := p.Origin(cl.Common().Args[0]); o.Kind == "field" && cn(o.Field) == "LogoutTimeout" {
 					return true
 				}
 			}
@@ -250,7 +250,7 @@ func (p *Prog) incomingFn() *ssa.Function {
 			return false
 		}
 		for _, cl := range Calls(fn) {
-			if cal := cl.Common().StaticCallee(); cal != nil && strings.HasPrefix(cal.Name(), "ParseMessage") {
+			if cal := cl.Common().StaticCallee(); cal != nil && strings.HasPrefix(fnName(cal), "ParseMessage") {
 				return true
 			}
 		}
